@@ -99,7 +99,8 @@ def coord_to_index(coord, coords, include_stop=False):
     try:
         index = np.where(coords == coord)[0][0]
     except IndexError:
-        if include_stop and (coord == coords[-1] + (coords[-1]-coords[-2])):
+        # The exclusive stop one step past the end of a float axis cannot be pinned to the last bit
+        if include_stop and np.isclose(coord, coords[-1] + (coords[-1]-coords[-2]), rtol=1e-9, atol=1e-9):
             return len(coords)
         raise IndexError(f"Coordinate {coord} not in axis")
     return index
